@@ -4,13 +4,14 @@
 package majority
 
 import (
+	"github.com/Azbesciak/RealDecisionMaker/lib/model"
 	"github.com/Azbesciak/RealDecisionMaker/lib/utils"
 	vh "github.com/Azbesciak/RealDecisionMaker/lib/zz_vh"
 	rt "github.com/Azbesciak/RealDecisionMaker/lib/zz_verifrt"
 )
 
 //verif:bounds C11 HC11_tournament: known alternatives A<=4 (quick) / A<=5 (thorough); considered = all (all-but-last when currentChoice is known-but-not-considered; thorough: both); K=2 criteria (quick) / K=1..3 (thorough), first criterion gain or cost, others alternate cost/gain, all four draw policies, currentChoice absent / first considered / last considered / known-not-considered, fixed search order; all values and weights free reals (weights in [0,4])
-//verif:bounds C11 HC11_shuffle: seeded-random search order (every draw symbolic), A<=3 (quick) / A<=4 (thorough), K=1..2; only the order-independent clauses are asserted
+//verif:bounds C11 HC11_shuffle: seeded-random search order (every draw symbolic), A<=4 (quick) / A<=5 (thorough), K=2 (quick) / K=1..2 (thorough); the oracle replicates the seeded shuffle from the same stream and runs the full reference tournament
 //verif:outside C11: A and K beyond the bounds; the value reported for the undefeated alternative (not part of the statement); rounding of score sums (REAL mode)
 //verif:assume C11: scores are sums over the reals; ties are |s1-s2| <= 1e-6 and |v1-v2| <= 1e-6 exactly as in the statement
 
@@ -22,13 +23,19 @@ func HC11_tournament() {
 	vh.WellFormed("C11.wellformed", r, s.expectedIds)
 	c11entryClauses("C11", s, r)
 
+	c11reference(s, r, s.order, rt.Generators(s.params.RandomSeed))
+}
+
+
+// c11reference: the tournament over plain lists for a given search order; gen is the same seeded stream the
+// heuristic uses (already advanced past the draws the search order consumed)
+func c11reference(s *c11setup, r *model.AlternativesRanking, order []string, gen func() float64) {
 	// reference tournament over plain lists
-	gen := rt.Generators(s.params.RandomSeed)
-	winner := s.order[0]
+	winner := order[0]
 	var tied []string
 	var groups [][]string
 	info := map[string]*c11info{}
-	for _, x := range s.order[1:] {
+	for _, x := range order[1:] {
 		sw := c11score(s.crit, s.params.Weights, c11alt(s.known, winner), c11alt(s.known, x))
 		sx := c11score(s.crit, s.params.Weights, c11alt(s.known, x), c11alt(s.known, winner))
 		outcome := "new-loses"
@@ -125,11 +132,29 @@ func HC11_tournament() {
 
 //verif:harness HC11_shuffle mode=REAL reach=shuffled
 func HC11_shuffle() {
-	s := c11build(rt.Pick(3, 4), rt.Pick(1, 2), true)
+	s := c11build(rt.Pick(4, 5), 2, true)
 	dmp := vh.Params(s.known, s.chose, s.crit, s.params)
 	r := c11majority().Evaluate(dmp)
 	vh.WellFormed("C11.shuffle.wellformed", r, s.expectedIds)
 	c11entryClauses("C11.shuffle", s, r)
+	// the seeded search order: current choice first, the other considered alternatives shuffled with the
+	// heuristic's own stream (for i = n-1 .. 1: swap i with int(draw x i)); then the full reference tournament
+	gen := rt.Generators(s.params.RandomSeed)
+	var rest []string
+	for _, id := range s.chose {
+		if id != s.params.CurrentChoice {
+			rest = append(rest, id)
+		}
+	}
+	for i := len(rest) - 1; i > 0; i-- {
+		j := int(gen() * float64(i))
+		rest[i], rest[j] = rest[j], rest[i]
+	}
+	order := rest
+	if s.params.CurrentChoice != "" {
+		order = append([]string{s.params.CurrentChoice}, rest...)
+	}
+	c11reference(s, r, order, gen)
 	if s.params.CurrentChoice != "" {
 		// current choice first: it is the first to be compared, so if it is not the winner its opponent ... it is either undefeated or was met by someone
 		rt.Reach("shuffled")
